@@ -16,6 +16,8 @@ Extracted by AST pattern matching (secsgem is never imported):
                    GemHandler._on_message_received: does it call `_handle_stream_function`, `s1f13received`, `s1f14received`,
                    `communicationreqfail`
   * linkLossStates: states tested in `GemHandler.on_connection_closed` before `communicationfail()`
+  * waiterRepliesOnly: the `_response_queues` lookup of `HsmsProtocol._on_connection_message_received` is guarded by
+                   `message.header.function % 2 == 0`
 """
 import ast
 import glob
@@ -232,6 +234,22 @@ def dispatch_table():
     return rows, loss, fwd, sel
 
 
+def waiter_replies_only():
+    """hsms/protocol.py `_on_connection_message_received`: is the lookup in `_response_queues` guarded by
+    `message.header.function % 2 == 0` (only a reply can belong to an open transaction of ours)?"""
+    fn = G.P.find_function(G.parse("hsms/protocol.py"), "HsmsProtocol", "_on_connection_message_received")
+    uses_queue = any(G.P.dotted(n) == "self._response_queues" for n in ast.walk(fn))
+    if not uses_queue:
+        raise G.P.Untranslatable("HsmsProtocol._on_connection_message_received: no use of self._response_queues")
+    for n in ast.walk(fn):
+        if isinstance(n, ast.Compare) and len(n.ops) == 1 and isinstance(n.ops[0], ast.Eq) and isinstance(n.left, ast.BinOp) \
+                and isinstance(n.left.op, ast.Mod) and G.P.dotted(n.left.left) == "message.header.function" \
+                and isinstance(n.left.right, ast.Constant) and n.left.right.value == 2 \
+                and isinstance(n.comparators[0], ast.Constant) and n.comparators[0].value == 0:
+            return True
+    return False
+
+
 def lean_pairs(ps):
     return "[" + ", ".join(f"({s}, {f})" for s, f in ps) + "]"
 
@@ -294,12 +312,15 @@ def unit_Callbacks():
     out.append("/-- `GemHandler._on_disconnected` calls `on_connection_closed`; `_on_communicating` calls `select()` -/")
     out.append(f"def disconnectedForwards : Bool := {str(fwd).lower()}")
     out.append(f"def communicatingSelects : Bool := {str(sel).lower()}\n")
+    wro = waiter_replies_only()
+    out.append("/-- `HsmsProtocol._on_connection_message_received`: only an even function (a reply) is looked up in `_response_queues` -/")
+    out.append(f"def waiterRepliesOnly : Bool := {str(wro).lower()}\n")
     out.append("end SecsModel.Gen.Callbacks\n")
     G.write("Callbacks", "\n".join(out))
     G.FACTS["Callbacks"] = {"builtin": {c: builtin[c] for c in HANDLER_CLASSES}, "catalogue": [(s, f) for s, f, _, _ in cat],
                             "replyRequired": req, "streamsWithF0": sorted({s for s, f, _, _ in cat if f == 0}),
                             "unknownReply": list(unk[0]), "abortFunction": ab[0][1], "protocolHooks": proto, "commWiring": wiring,
-                            "dispatch": rows, "linkLossStates": loss}
+                            "dispatch": rows, "linkLossStates": loss, "waiterRepliesOnly": wro}
 
 
 UNITS = {"Callbacks": unit_Callbacks}
